@@ -124,7 +124,7 @@ def finish(ctx):
     ctx.assumptions = [
         "SM3/SHA Spec = my transcription of GB/T 32905 / FIPS 180-4, pinned by the standards' vectors proved as Examples (vm_compute)",
         "sha384/sha512 streaming theorem carries the premise < 2^64 blocks (the C block counter is 64 bits)",
-        "hkdf_expand Impl model vs RFC 5869 Spec is compared at run time by the driver (theorem not yet proved); all other Impl=Spec equalities are theorems",
+        "every Impl=Spec equality the driver relies on is a theorem of Props/Properties_C03.v, except HMAC over SHA-384/512 (generic hmac.c instance; run-time compared by the driver: MODEL-IMPL-SPEC-DIFFER would be reported)",
         "SIMD variants (ENABLE_SM3_SSE etc.) are not built here",
     ]
     return ctx.finish(level="proof",
